@@ -306,8 +306,8 @@ typedef AddressRange<IPv6Address> IPv6Range;
  */
 template<size_t n>
 AddressRange<HWAddress<n> > operator/(const HWAddress<n>& addr, int mask) {
-    if (mask > 48) {
-        throw std::logic_error("Prefix length cannot exceed 48");
+    if (mask > static_cast<int>(n * 8)) {
+        throw std::logic_error("Prefix length cannot exceed the address length");
     }
     HWAddress<n> last_addr;
     typename HWAddress<n>::iterator it = last_addr.begin();
@@ -317,7 +317,7 @@ AddressRange<HWAddress<n> > operator/(const HWAddress<n>& addr, int mask) {
         mask -= 8;
     }
     *it = 0xff << (8 - mask);
-    return AddressRange<HWAddress<6> >::from_mask(addr, last_addr);
+    return AddressRange<HWAddress<n> >::from_mask(addr, last_addr);
 }
 
 /**
